@@ -289,7 +289,8 @@ def _c10_probe(st, target, sign, rng):
     if form != "negaxis" and len(ys) == 2 and not ints and rng.random() < 0.35:
         # a third vi row beyond the grid, the rows given in an order that is neither rising nor falling
         y3 = vi_of(ys[-1] + 1)
-        row3 = [lo + (hi - lo) * rng.random() for _ in xs]
+        flat = len({v for r in f for v in r}) == 1        # (a table of equal entries stays one: it is compared with the constant)
+        row3 = [const for _ in xs] if flat else [lo + (hi - lo) * rng.random() for _ in xs]
         vis = [vi_of(y) for y in ys] + [y3]
         rows = [[lo + (hi - lo) * v / max(fmax, 1) for v in r] for r in f] + [row3]
         order = rng.choice([[1, 2, 0], [2, 0, 1], [1, 0, 2], [0, 2, 1]])
